@@ -49,15 +49,42 @@ func (p *Prog) stateClosure(fnName string) *ssa.Function {
 		return nil
 	}
 	var best *ssa.Function
-	for _, f := range withAnon(outer) {
+	// the function that owns the state's select: a closure of the state
+	// function, the state function itself, or a method the loop was moved to
+	cands := withAnon(outer)
+	for _, g := range deepFuncs(outer) {
+		dup := false
+		for _, c := range cands {
+			if c == g {
+				dup = true
+			}
+		}
+		if !dup {
+			cands = append(cands, g)
+		}
+	}
+	for _, f := range cands {
 		n := 0
-		allInstrs(f, func(in ssa.Instruction) {
+		ownInstrs(f, func(in ssa.Instruction) {
 			if s, ok := in.(*ssa.Select); ok && s.Blocking && len(s.States) >= 4 {
 				n++
 			}
 		})
 		if n > 0 {
 			best = f
+		}
+	}
+	if best == nil {
+		for _, f := range withAnon(outer) {
+			n := 0
+			allInstrs(f, func(in ssa.Instruction) {
+				if s, ok := in.(*ssa.Select); ok && s.Blocking && len(s.States) >= 4 {
+					n++
+				}
+			})
+			if n > 0 {
+				best = f
+			}
 		}
 	}
 	if best == nil {
@@ -548,6 +575,13 @@ func (c *Check) cleanupOnExit(rule string) {
 			b.Run()
 			okC := len(b.Returns) > 0
 			for _, r := range b.Returns {
+				// a return that reports progress (the loop analysed in place
+				// says so) is the case the cleanup is skipped for
+				if len(r.Results) > 0 {
+					if v, isC := r.State.rangeOf(r.Results[0]).IsConst(); isC && v == prog {
+						continue
+					}
+				}
 				if !r.State.must["call:fsm.cleanupConnAndReader"] {
 					okC = false
 				}
